@@ -55,6 +55,25 @@ thread_local! {
     static SINK: RefCell<Option<Box<dyn FnMut(Event)>>> = RefCell::new(None);
 }
 
+thread_local! {
+    static WALL_CLOCK: RefCell<Option<Box<dyn Fn() -> SystemTime>>> = RefCell::new(None);
+}
+
+/// Installs the simulated wall clock read by `SystemClock::now()` on the current OS thread.
+pub fn install_wall_clock(clock: Box<dyn Fn() -> SystemTime>) {
+    WALL_CLOCK.with(|w| *w.borrow_mut() = Some(clock));
+}
+
+pub fn uninstall_wall_clock() {
+    WALL_CLOCK.with(|w| *w.borrow_mut() = None);
+}
+
+/// What `SystemClock::now()` returns under the simulator: the installed wall clock, or the real
+/// one when none is installed.
+pub(crate) fn wall_clock_now() -> SystemTime {
+    WALL_CLOCK.with(|w| w.borrow().as_ref().map(|clock| clock())).unwrap_or_else(SystemTime::now)
+}
+
 pub fn install(sink: Box<dyn FnMut(Event)>) {
     SINK.with(|s| *s.borrow_mut() = Some(sink));
 }
